@@ -258,18 +258,27 @@ namespace rpc
 
         CheckedMessage() : m_checksum(Hasher::init_value()) {}
 
+        // The checksum field is part of the body, which is part of what gets
+        // hashed: accumulate the hash in a local variable, with the field
+        // holding its initial value meanwhile. (Accumulating in the field
+        // itself feeds a CRC its own running value as data, which cancels
+        // everything hashed before the body.)
         void add_checksum(iovector* iov) {
             assert(m_checksum == Hasher::init_value());
-            Hasher::extend_hash(m_checksum, iov);
+            auto sum = Hasher::init_value();
+            Hasher::extend_hash(sum, iov);
+            m_checksum = sum;
         }
 
         bool validate_checksum(iovector* iov, void* body, size_t body_length) {
             auto dst = m_checksum;
             m_checksum = Hasher::init_value();
-            Hasher::extend_hash(m_checksum, iov);
+            auto sum = Hasher::init_value();
+            Hasher::extend_hash(sum, iov);
             if (body != nullptr && body_length != 0)
-                Hasher::extend_hash(m_checksum, body, body_length);
-            if (dst != m_checksum)
+                Hasher::extend_hash(sum, body, body_length);
+            m_checksum = sum;
+            if (dst != sum)
                 return false;
             return true;
         }
